@@ -147,11 +147,19 @@ type c05World struct {
 	sawPruning   bool
 	pendingCheck bool
 	nodesBefore  int
+	prunerParked int
+	open         bool
+	// shapes of recorded known defects that occurred in this run (for attribution)
+	shapeEmptyMemSetRecommit bool
 }
 
 func (w *c05World) fail(v *simrt.Violation) {
 	if v != nil && w.viol == nil {
-		v.Sig += "|" + w.cfg.String()
+		shape := "no-known-shape"
+		if w.shapeEmptyMemSetRecommit {
+			shape = "empty-memset-recommit-at-reused-height"
+		}
+		v.Sig += "|" + w.cfg.String() + "|" + shape
 		w.viol = v
 	}
 }
@@ -172,8 +180,19 @@ func (w *c05World) installHooks() {
 			}
 			return
 		}
+		w.prunerParked++
 		w.sched.Park("pruner", site)
+		w.prunerParked--
 	}
+}
+
+// prunerAlive: a pruning pass is marked as running, or a pruner goroutine is parked
+// at one of its disk operations.
+func (w *c05World) prunerAlive() bool {
+	if !mavldb.VerifPruning() && w.prunerParked > 0 {
+		w.ctx.Probe("pruner_parked_but_flag_clear")
+	}
+	return mavldb.VerifPruning() || w.prunerParked > 0
 }
 
 func (w *c05World) run() {
@@ -186,6 +205,7 @@ func (w *c05World) run() {
 		w.cfg.PruneHeight = 2
 	}
 	w.ph = int64(w.cfg.PruneHeight)
+	w.open = sc.Knob("open", 0) == 1
 	w.n = NewNode("c05", w.cfg)
 	defer func() { w.n.Destroy() }()
 	w.chain = []chainPos{{height: 0, root: nil}}
@@ -258,6 +278,18 @@ func (w *c05World) commit(mode int64, h int64, batch []simrt.Op, how string) {
 	pst := w.content[string(parent.root)]
 	child := applyModel(pst, batch)
 	kvs := KVs(batch)
+	if len(kvs) == 0 && mode == 1 && h <= w.maxH {
+		// A height that was used before is re-committed without any state change
+		// through MemSet+Commit: the store then writes nothing at all. Recorded known
+		// shape (stale version-index entries of the abandoned block survive); strict
+		// runs take the Set path for it instead.
+		if w.open {
+			w.shapeEmptyMemSetRecommit = true
+			ctx.Probe("empty_memset_recommit_at_reused_height")
+		} else {
+			mode = 0
+		}
+	}
 	w.parks = ctx.Sc.Knob("chainparks", 0) == 1
 	var root []byte
 	var err error
@@ -408,8 +440,7 @@ func (w *c05World) do(op *simrt.Op) {
 // pruning pass) becomes the disk of a new process. The old process - including
 // its pruner - keeps running on the old disk, which nobody looks at any more.
 func (w *c05World) crash() {
-	mid := mavldb.VerifPruning()
-	if mid {
+	if mavldb.VerifPruning() {
 		w.ctx.Fault("crash_mid_prune")
 	}
 	old := w.n.Disk
@@ -417,10 +448,12 @@ func (w *c05World) crash() {
 	old.Hooks = simdb.Hooks{}
 	clone := old.Clone(oldID + "-c")
 	// let the abandoned process finish its pruning pass on the abandoned disk
-	for i := 0; i < 100000 && mavldb.VerifPruning(); i++ {
+	for i := 0; i < 1000000; i++ {
 		w.actor.Yield("abandoned-pruner")
+		if !w.prunerAlive() {
+			break
+		}
 	}
-	w.actor.Yield("abandoned-pruner-exit")
 	old.Remove()
 	scMu.Lock()
 	delete(scDisks, oldID)
@@ -435,11 +468,15 @@ func (w *c05World) crash() {
 
 // drain lets a running background pruner finish its pass.
 func (w *c05World) drain() {
-	for i := 0; i < 1000000 && mavldb.VerifPruning(); i++ {
-		w.sawPruning = true
+	// yield first: a pruner goroutine that Save has just started must get the chance
+	// to mark the pass as running before the flag is looked at
+	for i := 0; i < 1000000; i++ {
 		w.actor.Yield("wait-pruner")
+		if !w.prunerAlive() {
+			break
+		}
+		w.sawPruning = true
 	}
-	w.actor.Yield("quiesce")
 	w.afterOp()
 }
 
